@@ -1223,6 +1223,10 @@ def folded_value_cases():
             out.append(H3 + pre + a + "%s b = arr[1];\n%s\n%s b2 = arr[2];\n%s\n" % (vt, use, vt, use.replace("b", "b2") if vt != "bit" else "b2[0] = measure q[1];"))
             if vt != "bit":
                 out.append(H3 + pre + a + "%s b;\nb = arr[0];\nrz(b) q[1];\ndef h2(%s z, qubit a) { rx(z) a; }\nh2(arr[2], q[2]);\n" % (vt, vt))
+        # elements in arithmetic (the value, not a fixed-width machine integer), under modifiers that negate, in gates that negate
+        if not ty.startswith("bool"):
+            out.append(H3 + pre + a + "rz(-arr[1]) q[0];\nrx(arr[0] - arr[2]) q[1];\nint[8] d = arr[0] - arr[2];\nry(d) q[2];\ninv @ rx(arr[2]) q[0];\n"
+                       "crx(arr[0]) q[0], q[1];\npow(2) @ inv @ rz(arr[1] * 2) q[3];\nfloat[64] fd = arr[1] - 3;\nrx(fd) q[2];\nrx(arr[0] * arr[2] - 4) q[3];\n")
     return out
 
 
